@@ -48,6 +48,10 @@ DONE = {
   text="Sequential client histories over three documents covering every request kind of the store handle; a per-document model {exists, handles, sync, subscribers, entries} predicts each reply's success class, close's boolean, get_state and the contents; failed requests must change nothing; the store returned by shutdown must hold every acknowledged write.",
   note="One client, so replies-in-request-order is checked as 'each reply reflects all earlier requests'; concurrent clients are not explored by this check.",
   technique=PBT + ": history vs. open/close/sync state-machine model"),
+ "C09": dict(level="exploration",
+  text="Frame streams built from real session transcripts are written with the real encoder, cut at generated points (also inside length prefixes), truncated and corrupted byte by byte, and decoded with the real decoder; signed entries and key pairs are compared with an independent byte-layout encoder and the suite's golden snapshots; tickets, capabilities, policies and head sets are round-tripped; random and mutated-valid byte strings are fed to ten decoder targets whose bodies contain the round-trip oracle. The thorough tier adds a coverage-guided libFuzzer campaign (cargo-fuzz) over the same target bodies.",
+  note="The encoder is exercised only as the crate uses it (FramedWrite::send). libFuzzer runs are pinned only approximately by -seed/-runs; a saved artifact is converted into a JSON replay and judged by the release-build oracle.",
+  technique="property testing (proptest) with round-trip / independent-encoder oracles + coverage-guided fuzzing (libFuzzer via cargo-fuzz) of the decoders"),
  "C05": dict(level="exploration",
   text="For generated replica states, generated queries over the full product of query options are compared, as exact sequences, with a naive filter/group/sort/skip/take executor over the store's actual contents; point lookups and the two physical access paths are cross-checked.",
   note="Latest-per-key semantics as documented on Query (author filter after grouping); ties between authors at the greatest timestamp are judged by a validity predicate or skipped and counted.",
